@@ -12,6 +12,8 @@ CONSTANTS N,          \* chunks delta has to write
           Quit,       \* the pager stops reading after Quit chunks (N + 1: it reads everything)
           Stay,       \* BOOLEAN: having stopped reading it closes its input but stays alive for a while
           WaitsForPager,  \* TRUE: the code as it is; FALSE: the regression (exit as soon as a write fails)
+          RetriesEINTR,   \* TRUE: the code as it is (a write call that fails with EINTR - a signal arrived before any byte was taken - is
+                          \* made again, std::io::Write::write_all); FALSE: the regression (the failure is taken for an error)
           RetriesShort    \* TRUE: the code as it is (write_all: the rest of a chunk that write(2) took only part of -
                           \* reader behind, a signal arrives - is written again); FALSE: the regression (the rest is dropped)
 
@@ -25,11 +27,13 @@ VARIABLES pipe,       \* chunks in the pipe
           epipe,      \* delta has seen a write fail
           log,        \* the events an observer can record, in order
           partial,    \* write(2) has taken only a part of chunk sent + 1 (the part sits in the pipe, not yet a whole chunk)
-          lost        \* chunks of which the reader can only ever get a part
-vars == <<pipe, sent, wopen, ropen, read, pager, delta, epipe, log, partial, lost>>
+          lost,       \* chunks of which the reader can only ever get a part
+          intr,       \* the write call for chunk sent + 1 has been interrupted once already (at most once per chunk here)
+          err         \* delta has reported an error to its user
+vars == <<pipe, sent, wopen, ropen, read, pager, delta, epipe, log, partial, lost, intr, err>>
 
 Init == pipe = 0 /\ sent = 0 /\ wopen = TRUE /\ ropen = TRUE /\ read = 0 /\ pager = "running" /\ delta = "writing" /\ epipe = FALSE /\ log = <<"start">>
-        /\ partial = FALSE /\ lost = 0
+        /\ partial = FALSE /\ lost = 0 /\ intr = FALSE /\ err = FALSE
 
 Write == /\ delta = "writing" /\ sent < N /\ ropen /\ pipe < Cap                  \* a whole chunk, or the rest of one
          /\ sent' = sent + 1 /\ pipe' = pipe + 1 /\ partial' = FALSE /\ UNCHANGED <<wopen, ropen, read, pager, delta, epipe, log, lost>>
@@ -62,13 +66,23 @@ PagerLeaves == /\ pager = "staying" /\ pager' = "exited" /\ log' = Append(log, "
 DeltaExits == /\ delta = "waiting" /\ pager = "exited"              \* child.wait() returns
               /\ delta' = "exited" /\ log' = Append(log, "delta-exit")
               /\ UNCHANGED <<pipe, sent, wopen, ropen, read, pager, epipe, partial, lost>>
-Next == Write \/ ShortWrite \/ DropRest \/ WriteFails \/ Finish \/ PagerRead \/ PagerStops \/ PagerEOF \/ PagerLeaves \/ DeltaExits
+(* write(2) fails with EINTR: nothing was taken.  The code makes the call again (no change of state but the mark that it    *)
+(* happened); the regression gives up: closes the pipe, tells the user, waits for the pager.                                *)
+WriteInterrupted == /\ delta = "writing" /\ sent < N /\ ropen /\ ~intr
+                    /\ intr' = TRUE
+                    /\ IF RetriesEINTR THEN UNCHANGED <<wopen, delta, err>>
+                       ELSE err' = TRUE /\ wopen' = FALSE /\ delta' = "waiting"
+                    /\ UNCHANGED <<pipe, sent, ropen, read, pager, epipe, log, partial, lost>>
+Others == Write \/ ShortWrite \/ DropRest \/ WriteFails \/ Finish \/ PagerRead \/ PagerStops \/ PagerEOF \/ PagerLeaves \/ DeltaExits
+Next == \/ Others /\ err' = err /\ intr' = (IF sent' # sent THEN FALSE ELSE intr)
+        \/ WriteInterrupted
 Spec == Init /\ [][Next]_vars /\ WF_vars(Next)
 
 \* ---- the properties ----
 NoEarlyExit == delta = "exited" => pager = "exited"                  \* delta does not exit before the pager does
 AllDelivered == (delta = "exited" /\ Quit > N) => (read = N /\ lost = 0)  \* a pager that reads everything gets everything, whole
 NothingInvented == read <= sent /\ sent <= N /\ read + lost <= sent
+Quiet == ~err                                                         \* an interrupted write call is not an error
 LogOrder == \A i, j \in DOMAIN log : (log[i] = "delta-exit" /\ log[j] = "done") => j < i
 Terminates == <>(delta = "exited")
 =============================================================================
